@@ -125,6 +125,8 @@ func (x *Exec) pass() {
 	x.calls = map[string]int{}
 	x.paramVals = map[string]Val{}
 	x.deferred = nil
+	x.psums = nil
+	x.psumUnfolded = nil
 	x.X.decls = nil
 	x.X.declSeen = map[string]bool{}
 	x.X.structSorts = map[string]*structSort{}
@@ -317,6 +319,11 @@ func (x *Exec) loopHead(li *loopInfo, st *State, variants map[*ssa.BasicBlock]Te
 		o := x.oblige(st, "loop-init", fmt.Sprintf("loop%d-init:%d", li.ordinal, k+1), t, li.head.Instrs[0].Pos(), false, x.props())
 		o.Clause, o.Line = c.Text, c.Line
 	}
+	for _, a := range x.rangeIndexCells(li) {
+		if t, ok := st.cells[a]; ok {
+			x.oblige(st, "loop-init", fmt.Sprintf("loop%d-init:rangeindex", li.ordinal), x.rangeIndexInv(li, a, t), li.head.Instrs[0].Pos(), false, x.props())
+		}
+	}
 	cells, all, comps := x.loopModifies(li)
 	var cl []*ssa.Alloc
 	for a := range cells {
@@ -349,6 +356,12 @@ func (x *Exec) loopHead(li *loopInfo, st *State, variants map[*ssa.BasicBlock]Te
 	for _, c := range invs {
 		x.assume(st, x.evalClause(c, x.fn, st, x.entry, nil, false))
 	}
+	for _, a := range x.rangeIndexCells(li) {
+		// hidden index of `for range` over a slice/array: starts at -1 and is only incremented
+		if t, ok := st.cells[a]; ok {
+			x.assume(st, x.rangeIndexInv(li, a, t))
+		}
+	}
 	if dec != nil {
 		v := x.evalClause(dec, x.fn, st, x.entry, nil, false)
 		variants[li.head] = x.define(x.fresh("variant"), "Int", v)
@@ -367,6 +380,11 @@ func (x *Exec) loopBack(li *loopInfo, st *State, cond Term, variants map[*ssa.Ba
 	}
 	bs := st.clone()
 	bs.live = cond
+	for _, a := range x.rangeIndexCells(li) {
+		if t, ok := bs.cells[a]; ok {
+			x.oblige(bs, "loop-preserve", fmt.Sprintf("loop%d-preserve:rangeindex", li.ordinal), x.rangeIndexInv(li, a, t), li.head.Instrs[0].Pos(), false, x.props())
+		}
+	}
 	for k, c := range x.fc.LoopInv[li.ordinal] {
 		t := x.evalClause(c, x.fn, bs, x.entry, nil, false)
 		o := x.oblige(bs, "loop-preserve", fmt.Sprintf("loop%d-preserve:%d", li.ordinal, k+1), t, li.head.Instrs[0].Pos(), false, x.props())
@@ -491,7 +509,29 @@ func (x *Exec) evalClauseDual(c *Clause, target *ssa.Function, cur, old *State, 
 		x.errorf("clause %q: cannot bind %s", c.Text, name)
 		args = append(args, dualOf(Val{T: x.X.zero(p.Type())}))
 	}
-	return x.evalPure(cf, args, nil, [2]memView{stateView{x, cur}, stateView{x, old}}, 0)
+	// loads performed by the clause yield well-typedness facts (ranges of loaded integers,
+	// non-negative lengths, ...) that hold in any state; they are assumed on the current path
+	saveC, saveF := x.collectFacts, x.pureFacts
+	x.collectFacts, x.pureFacts = true, nil
+	d := x.evalPure(cf, args, nil, [2]memView{stateView{x, cur}, stateView{x, old}}, 0)
+	facts := x.pureFacts
+	x.collectFacts, x.pureFacts = saveC, saveF
+	if len(facts) > 0 {
+		x.assume(cur, and(dedup(facts)...))
+	}
+	return d
+}
+
+func dedup(ts []Term) []Term {
+	seen := map[string]bool{}
+	var out []Term
+	for _, t := range ts {
+		if !seen[t] {
+			seen[t] = true
+			out = append(out, t)
+		}
+	}
+	return out
 }
 
 // allocNamed finds the local variable cell with the given source name (the
@@ -510,4 +550,39 @@ func (x *Exec) allocNamed(name string, t types.Type) *ssa.Alloc {
 		}
 	}
 	return best
+}
+
+// rangeIndexCells: hidden index variables of `for range` loops over slices,
+// arrays and integers whose loop head is li.head.
+func (x *Exec) rangeIndexCells(li *loopInfo) []*ssa.Alloc {
+	if x.X.bvMode || !strings.HasPrefix(li.head.Comment, "rangeindex") {
+		return nil
+	}
+	var out []*ssa.Alloc
+	for _, in := range li.head.Instrs {
+		if ld, ok := in.(*ssa.UnOp); ok && ld.Op == token.MUL {
+			if a, ok := ld.X.(*ssa.Alloc); ok && a.Comment == "rangeindex" {
+				out = append(out, a)
+			}
+		}
+	}
+	return out
+}
+
+// rangeIndexInv: the engine-supplied invariant of a `for range` loop over a
+// slice/array/integer: -1 <= hidden index < bound, where bound is the length
+// evaluated once before the loop. It is checked like any other invariant
+// (init and preserve obligations) before being assumed at the loop head.
+func (x *Exec) rangeIndexInv(li *loopInfo, a *ssa.Alloc, cur Term) Term {
+	inv := sx(">=", cur, "(- 1)")
+	for _, in := range li.head.Instrs {
+		if cmp, ok := in.(*ssa.BinOp); ok && cmp.Op == token.LSS {
+			if bv, ok := x.vals[cmp.Y]; ok && bv.T != "" {
+				inv = and(inv, sx("<", cur, sx("imax", bv.T, "0")))
+			} else if c, ok := cmp.Y.(*ssa.Const); ok {
+				inv = and(inv, sx("<", cur, sx("imax", x.constVal(c).T, "0")))
+			}
+		}
+	}
+	return inv
 }
